@@ -234,6 +234,43 @@ theorem findTxShareRange_out_of_range (b : Builder) (hd : b.done = true) (i : In
     (h : i < 0 ∨ (b.txs.length + b.pfbs.length : Int) ≤ i) : b.findTxShareRange i = .error .err :=
   find_error_of_ensure b b (ensureExported_done b hd) i h
 
+/-! ### a range `[shareOf X, shareOf (X + len - 1) + 1)` is exactly the set of shares holding a byte -/
+
+theorem shareOf_mono {a b : Nat} (h : a ≤ b) : C12.shareOf a ≤ C12.shareOf b := by
+  rw [C12.shareOf_closed_form, C12.shareOf_closed_form]
+  by_cases ha : a < 474
+  · simp only [ha, if_true]; omega
+  · have hb : ¬ b < 474 := by omega
+    simp only [ha, hb, if_false]; omega
+
+/-- share `k` lies in the reported range of a unit occupying the stream bytes `[X, X + len)` iff it
+    holds at least one of these bytes -/
+theorem mem_range_iff (X len k : Nat) (hlen : 1 ≤ len) :
+    (C12.shareOf X ≤ k ∧ k < C12.shareOf (X + len - 1) + 1) ↔
+      ∃ off, X ≤ off ∧ off < X + len ∧ C12.shareOf off = k := by
+  constructor
+  · rintro ⟨h1, h2⟩
+    by_cases hk : k = C12.shareOf X
+    · exact ⟨X, Nat.le_refl _, by omega, hk.symm⟩
+    · refine ⟨474 + (k - 1) * 478, ?_, ?_, ?_⟩
+      · rw [C12.shareOf_closed_form] at h1 hk
+        by_cases hx : X < 474
+        · omega
+        · simp only [hx, if_false] at h1 hk; omega
+      · rw [C12.shareOf_closed_form] at h2
+        have : 1 ≤ k := by omega
+        by_cases hx : X + len - 1 < 474
+        · simp only [hx, if_true] at h2; omega
+        · simp only [hx, if_false] at h2; omega
+      · rw [C12.shareOf_closed_form]
+        have : 1 ≤ k := by omega
+        have hx : ¬ (474 + (k - 1) * 478 < 474) := by omega
+        simp only [hx, if_false]; omega
+  · rintro ⟨off, h1, h2, rfl⟩
+    have := shareOf_mono h1
+    have := shareOf_mono (show off ≤ X + len - 1 by omega)
+    omega
+
 /-! ### in terms of the unit streams written into the square -/
 
 /-- `before` over the transaction lengths is the length of the unit stream of the first `i`
@@ -346,5 +383,63 @@ theorem findTxShareRange_kept (b : Builder) (N : List Bytes) (B : List BlobTx) (
     apply find_error_of_ensure b b' he
     rw [htx, hpf, patched_length]
     exact hi
+
+/-- **C12 for `square.TxShareRange(txs, txIndex, max, thr)`**: the input list is `N ++ bl`
+    (ordinary transactions, then blob transactions), the square is `squareOf thr N B ..` whose two
+    compact sequences are `compactSeq txNamespace N` (shares `[0, T)`) and
+    `compactSeq payForBlobNamespace W` (from share `T`), and the reported range of every index is
+    exactly `[share of the unit's first byte, share of its last byte + 1)`; every other index is an
+    error. -/
+theorem txShareRange_spec (dec : Bytes → Decoded) (hdec : DecValid dec) (txs : List Bytes) (max thr : Nat)
+    (hsz : 478 * (max * max) < 4294967296) (b0 : Builder) (hb0 : Builder.newWithTxs dec max thr txs = .ok b0) :
+    ∃ N bl, txs = N ++ bl ∧ (∀ r ∈ N, dec r = .normal) ∧ (∀ r ∈ bl, dec r = .blobTx (decB dec r)) ∧
+      ∀ (sq : List Bytes) (b1 : Builder), b0.exportSquare = .ok (b1, sq) →
+        let W := (patched thr N (bl.map (decB dec))).map (·.marshal)
+        let T := (compactSeq txNamespace N).length
+        (∀ (i : Nat) (hi : i < N.length),
+          txShareRange dec txs (i : Int) max thr = .ok (
+            C12.shareOf (unitStream (N.take i)).length,
+            C12.shareOf ((unitStream (N.take i)).length + unitLen (N[i]).length - 1) + 1)) ∧
+        (∀ (i : Nat) (hi : i < W.length),
+          txShareRange dec txs ((N.length + i : Nat) : Int) max thr = .ok (
+            T + C12.shareOf (unitStream (W.take i)).length,
+            T + C12.shareOf ((unitStream (W.take i)).length + unitLen (W[i]).length - 1) + 1)) ∧
+        (∀ i : Int, i < 0 ∨ (txs.length : Int) ≤ i → txShareRange dec txs i max thr = .error .err) := by
+  have hb0' := hb0
+  unfold Builder.newWithTxs at hb0'
+  obtain ⟨bn, hnew, hall⟩ := res_bind_ok' hb0'
+  obtain ⟨hk0, ht0, hm0⟩ := kept_new max thr bn hnew
+  obtain ⟨N, bl, e, hk, hthr, hmx, hbl, hn⟩ := appendAll_spec dec txs bn false [] [] b0
+    (by simpa using hk0) (by simp) (by simp) hall
+  simp only [List.nil_append] at hk hbl hn
+  have hbthr : b0.thr = thr := by rw [hthr, ht0]
+  have hbmax : b0.maxSquareSize = max := by rw [hmx, hm0]
+  have hdone : b0.done = false := appendAll_done dec txs bn false b0 hall (new_done max thr bn hnew)
+  refine ⟨N, bl, e, hn, hbl, ?_⟩
+  intro sq b1 hexp
+  have hv := decValid_kept dec hdec bl hbl
+  have hmain := findTxShareRange_kept b0 N _ hk hv (by rw [hbmax]; exact hsz) hdone b1 sq hexp
+  simp only [hbthr] at hmain
+  obtain ⟨m1, m2, m3⟩ := hmain
+  intro W T
+  refine ⟨?_, ?_, ?_⟩
+  · intro i hi
+    unfold txShareRange
+    rw [hb0]
+    show (b0.findTxShareRange _ >>= _) = _
+    rw [m1 i hi]
+    rfl
+  · intro i hi
+    unfold txShareRange
+    rw [hb0]
+    show (b0.findTxShareRange _ >>= _) = _
+    rw [m2 i hi]
+    rfl
+  · intro i hi
+    unfold txShareRange
+    rw [hb0]
+    show (b0.findTxShareRange _ >>= _) = _
+    rw [m3 i (by rw [e, List.length_append] at hi; simp only [List.length_map]; omega)]
+    rfl
 
 end GoSquare.TxRange
